@@ -543,7 +543,8 @@ def rule_stub(run):
                 continue
             have = defined(mod, c.name, set())
             for n in c.body:
-                if isinstance(n, ast.FunctionDef) and n.name in _OP_DUNDERS:
+                # operator dunders and the cohdl.op protocol (`_cohdl_truncdiv_`, `_cohdl_rrem_`, ...)
+                if isinstance(n, ast.FunctionDef) and (n.name in _OP_DUNDERS or (n.name.startswith("_cohdl_") and n.name.endswith("_"))):
                     run.ob(n.name in have, f"{c.name}.{n.name}", file=rel, line=mod.cls(c.name).lineno, detail="stub-implemented",
                            expected="documented operator is defined", found="defined" if n.name in have else f"declared in {rel}i:{n.lineno}, not defined")
     run.end()
